@@ -88,6 +88,10 @@ func (c *Case) fault() world.FaultFunc {
 				case "hidden":
 					// NOT marked safe itself, but wraps a client-safe error: still an internal error
 					return failErr{kind, msg, fmt.Errorf("%s-%s: %w", msg, c.Secret, graphql.NewSafeError("hidden-safe-%s", msg))}
+				case "wrapcancel":
+					// an internal error that happens to wrap context.Canceled (a downstream call
+					// that was cancelled): still a failure of this field, reported like any other
+					return failErr{kind, msg, fmt.Errorf("%s-%s: %w", msg, c.Secret, context.Canceled)}
 				default:
 					return failErr{"panic", msg, world.PanicErr{Msg: msg + "-" + c.Secret}}
 				}
@@ -160,10 +164,13 @@ func (c *Case) matchDirect(err error, ri refInfo) error {
 				}
 				return nil
 			}
-		case "plain", "hidden":
+		case "plain", "hidden", "wrapcancel":
 			full := msg + "-" + c.Secret
 			if kind == "hidden" {
 				full += ": hidden-safe-" + msg
+			}
+			if kind == "wrapcancel" {
+				full += ": context canceled"
 			}
 			for _, prefix := range []string{"", c.Query.OpName + "."} {
 				if es == prefix+path+": "+full {
@@ -462,7 +469,7 @@ func genCase(t *rapid.T) (Case, world.Features) {
 		cd := candidates[rapid.IntRange(0, len(candidates)-1).Draw(t, "which")]
 		mod := rapid.IntRange(1, 2).Draw(t, "mod")
 		c.Faults = append(c.Faults, FaultRule{Typ: cd[0], Field: cd[1], Mod: mod, Rem: rapid.IntRange(0, mod-1).Draw(t, "rem"),
-			Kind: rapid.SampledFrom([]string{"plain", "plain", "client", "safe", "wrapped", "panic", "hidden"}).Draw(t, "kind")})
+			Kind: rapid.SampledFrom([]string{"plain", "plain", "client", "safe", "wrapped", "panic", "hidden", "wrapcancel"}).Draw(t, "kind")})
 	}
 	return c, feat
 }
